@@ -32,6 +32,14 @@ def main():
             continue
         patch = os.path.join(d, "patch.diff")
         demo = os.path.join(d, "demo.py")
+        if sys.argv[2].upper() == "AUTO":
+            # file-centric round: the property is named on the first line of notes.md ("property: Cnn")
+            try:
+                first = open(os.path.join(d, "notes.md")).read(400)
+                m0 = re.search(r"property:\s*\**\s*(C\d\d)", first, re.I)
+                prop = m0.group(1).upper() if m0 else "C00"
+            except OSError:
+                prop = "C00"
         report = {"property": prop, "change": k}
         sh("git checkout -- spil spil_hamlet_conf", wt)
         # demo on the clean tree
